@@ -122,6 +122,8 @@ def text(op):
         return "{x}'f()"
     if k == 'nest':
         return 'd,(%s),,e' % lit(op[1])
+    if k == 'nestj':            # the tuple made by a plain Join of the key and the dictionary (a dictionary is an atom)
+        return 'd,%s,e' % lit(op[1])
     if k == 'nfind':
         return '(d?%s)?%s' % (lit(op[1]), lit(op[2]))
     raise ValueError(op)
@@ -166,7 +168,7 @@ def apply(m, op):
         r = ('pairsval', m.resolve(oid))
         m.objs.pop()
         return r
-    if k == 'nest':
+    if k in ('nest', 'nestj'):
         m.objs[m.vars['d']][tagkey(op[1])] = (op[1], ('ref', m.vars['e']))
         return ('dict', m.vars['d'])
     if k == 'nfind':
@@ -215,9 +217,11 @@ def enabled(m, keys, vals, nest):
         # e inside d only if e does not (transitively) contain d: keeps the object graph acyclic
         if not _reaches(m, m.vars['e'], m.vars['d']):
             ops.append(('nest', Y('n')))
-    if nest and m.vars['d'] is not None and tagkey(Y('n')) in m.objs[m.vars['d']]:
-        for k in keys[:3]:
-            ops.append(('nfind', Y('n'), k))
+            ops.append(('nestj', S('ab')))      # a two-character string key: looks like a [k v] pair to a careless test
+    for nk in (Y('n'), S('ab')):
+        if nest and m.vars['d'] is not None and tagkey(nk) in m.objs[m.vars['d']]:
+            for k in keys[:3]:
+                ops.append(('nfind', nk, k))
     return ops
 
 
